@@ -218,10 +218,12 @@ class Idx:
 class Evaluator:
     """Interprets straight-line integer statements over the term domain."""
 
-    def __init__(self, fn, env, len_low2=None):
+    def __init__(self, fn, env, len_low2=None, length="nonzero"):
         self.fn = fn
         self.env = dict(env)
         self.len_low2 = len_low2
+        self.length = length  # scenario for tests on the input's length: 'nonzero' | 'zero'
+        self.len_tests = 0  # branch conditions that were decided by the length scenario
         self.width_violations = []
         self.calls = set()
         self.assigned = set()
@@ -251,6 +253,7 @@ class Evaluator:
             c = self.ev(s.test)
             if isinstance(c, T) and c.exact is not None:
                 c = bool(c.exact)  # truthiness of a known integer (`if val:`)
+            c = self._len_truth(c)
             if not isinstance(c, bool):
                 raise Unsupported("branch condition `%s` at line %d is not decided by constant propagation" % (node_src(s.test), s.lineno))
             return self.block(s.body if c else s.orelse)
@@ -259,6 +262,13 @@ class Evaluator:
         if isinstance(s, ast.Pass):
             return None
         raise Unsupported("statement %s at line %d" % (type(s).__name__, s.lineno))
+
+    def _len_truth(self, c):
+        """Truthiness of the input string / of its length under the length scenario."""
+        if (isinstance(c, T) and c.t == ("sym", "len") and c.exact is None) or isinstance(c, AStrSym):
+            self.len_tests += 1
+            return self.length != "zero"
+        return c
 
     def assign(self, t, v):
         if isinstance(t, ast.Name):
@@ -303,6 +313,8 @@ class Evaluator:
             return self.binop(e, self.ev(e.left), self.ev(e.right))
         if isinstance(e, ast.UnaryOp):
             v = self.ev(e.operand)
+            if isinstance(e.op, ast.Not):
+                v = self._len_truth(v)
             if isinstance(e.op, ast.Not) and isinstance(v, bool):
                 return not v
             if isinstance(e.op, ast.Not) and isinstance(v, T) and v.exact is not None:
@@ -349,6 +361,16 @@ class Evaluator:
                 vals.append(x.exact)
             res = l.exact in vals
             return res if isinstance(op, ast.In) else not res
+        for a_, b_, flip in ((l, r, False), (r, l, True)):
+            if isinstance(a_, T) and a_.t == ("sym", "len") and a_.exact is None and isinstance(b_, T) and b_.exact in (0, 1) and self.length == "nonzero":
+                # length >= 1 is the scenario; comparisons with 0 / 1 that this decides
+                o = type(op)
+                if flip:
+                    o = {ast.Lt: ast.Gt, ast.LtE: ast.GtE, ast.Gt: ast.Lt, ast.GtE: ast.LtE}.get(o, o)
+                table = {(ast.Eq, 0): False, (ast.NotEq, 0): True, (ast.Gt, 0): True, (ast.LtE, 0): False, (ast.GtE, 1): True, (ast.Lt, 1): False, (ast.GtE, 0): True, (ast.Lt, 0): False}
+                if (o, b_.exact) in table:
+                    self.len_tests += 1
+                    return table[(o, b_.exact)]
         if isinstance(l, T) and isinstance(r, T) and l.exact is not None and r.exact is not None:
             a, b = l.exact, r.exact
             return {ast.Eq: a == b, ast.NotEq: a != b, ast.Lt: a < b, ast.LtE: a <= b, ast.Gt: a > b, ast.GtE: a >= b}[type(op)]
@@ -430,6 +452,8 @@ class Evaluator:
             if f.id == "len" and len(e.args) == 1:
                 v = self.ev(e.args[0])
                 if isinstance(v, AStrSym):
+                    if self.length == "zero":
+                        return tconst(0)  # the empty-input scenario
                     return T(("sym", "len"), 32)
                 raise Unsupported("len of %s" % node_src(e.args[0]))
             if f.id == "ord" and len(e.args) == 1:
